@@ -44,6 +44,10 @@ var verifC08 struct {
 	bad      bool
 }
 
+//verif:replace (*consumer).assignPartitions
+func (c *consumer) verifC08AssignPartitions(assignments map[string]map[int32]Offset, how assignHow, tps *topicsPartitions, why string) {
+}
+
 //verif:replace (*Client).Request
 func (cl *Client) verifC08Request(ctx context.Context, req kmsg.Request) (kmsg.Response, error) {
 	oc, ok := req.(*kmsg.OffsetCommitRequest)
@@ -199,6 +203,17 @@ func verifC08Run(mode int) {
 		}
 	}
 	verifRunAll()
+
+	// optionally the session ends with a graceful leave (Close / LeaveGroup): the manage loop
+	// sees its context cancelled and goes through the real manageFailWait, which runs
+	// OnPartitionsRevoked (the default one commits) and then drops the session state
+	if verifChoose(2) == 1 {
+		g.cfg.onRevoked = g.defaultRevoke
+		g.cfg.onLost = func(context.Context, *Client, map[string][]int32) {}
+		g.nowAssigned.store(map[string][]int32{"t": {0}})
+		g.manageFailWait(0, context.Canceled)
+		verifRunAll()
+	}
 
 	verifAssert(!verifC08.bad, "every OffsetCommit names exactly the one consumed partition")
 	ok, okMono, okRet := true, true, true
